@@ -30,3 +30,10 @@ func VerifC11Conn(tc *TarsClient) (bool, net.Conn) {
 	defer tc.conn.connLock.Unlock()
 	return tc.conn.isClosed, tc.conn.conn
 }
+
+// VerifC11QueueCaps reports the capacities of the send queue (for the configured and for the default
+// length) and of the send failure queue of a new client.
+func VerifC11QueueCaps(queueLen int) (sendQueue int, sendFailQueue int) {
+	tc := NewTarsClient("verif", nil, &TarsClientConf{QueueLen: queueLen})
+	return cap(tc.sendQueue), cap(tc.sendFailQueue)
+}
